@@ -149,6 +149,18 @@ CHECKS.update({
         note=COMMON_NOTE + ' The environment matrix is a sampled harness parameter.'),
 })
 
+CHECKS.update({
+    'C04': dict(technique='TLA+ generator of surface-choice vectors (FMSurface.tla) x reference models chosen from TLC-enumerated UVL models; an independent '
+                          'reference emitter renders each (model, choices) pair; recorded ReadRef events judged by trace validation against the reference model',
+        design_ref='DESIGN.md section 8 (C04)',
+        text='Twelve reference models covering every construct of the statement (greedy cover over TLC-generated models: types, feature and group '
+             'cardinalities incl. [n] and [n..*], abstract, every attribute value kind, every logical/comparison/arithmetic/aggregate operator) x all '
+             '2*2*2*2*5 combinations of quoting / redundant parentheses / merged groups / comments / headers, under several namings: the reader must '
+             'return exactly the reference model (tree, attributes, constraint trees). Five kinds of invalid documents (unbalanced bracket, dangling '
+             'operator, missing section keyword, broken indentation, illegal character) must raise.',
+        note=COMMON_NOTE + ' The reference emitter harness/emit_ref.py is trusted (written from the grammar, no code shared with uvl_writer).'),
+})
+
 REASON_TODO = 'check not built yet (build in progress; see DESIGN.md section 12)'
 
 
